@@ -322,6 +322,27 @@ def _roles(chk):
     chk.check(nraise >= 4 and default_raises and {"type:int", "type:float", "type:str"} <= cases, "GUARD.role.n_modes.sanity", snm, snm.node,
               construct="sanity_check_n_modes: int<1, float outside (0,1], str != 'all', other types raise",
               why=f"n_modes validation lost a case ({nraise} raises, cases {sorted(cases)})")
+    # the bounds themselves: an integer below 1, a float outside (0, 1], a string other than 'all'
+    sff = FuncFacts.of(snm)
+    from .common import atomic_conditions, cmp_forms
+    b_int = b_float = b_str = False
+    for r in [x for x in walk_no_nested(snm.node) if isinstance(x, ast.Raise)]:
+        atoms = atomic_conditions(sff, r)
+        types = {str(k) for t, pol in atoms if pol for k in ([("type:" + norm(t.args[1]).split(".")[-1])] if isinstance(t, ast.Call) and norm(t.func) == "isinstance" and len(t.args) == 2 else [])}
+        forms = [f for t, pol in atoms for f in cmp_forms(t, pol)]
+        is_n = lambda e: norm(e) == "n_modes"
+        num = lambda e, v: isinstance(e, ast.Constant) and not isinstance(e.value, bool) and e.value == v
+        if "type:int" in types and any((o == "Lt" and is_n(a) and num(b, 1)) or (o == "LtE" and is_n(a) and num(b, 0)) for o, a, b in forms):
+            b_int = True
+        if "type:float" in types:
+            # not (0 < n <= 1.0): chained comparison or two atoms
+            txt = " ".join(("" if pol else "not ") + norm(t) for t, pol in atoms)
+            if "not 0 < n_modes <= 1.0" in txt or "not 0 < n_modes <= 1" in txt or ("n_modes <= 0" in txt and "n_modes > 1" in txt):
+                b_float = True
+        if "type:str" in types and any((o == "NotIn" and is_n(a)) or (o == "NotEq" and is_n(a) and const_str(b) == "all") for o, a, b in forms):
+            b_str = True
+    chk.check(b_int and b_float and b_str, "GUARD.role.n_modes.bounds", snm, snm.node, construct="n_modes: int < 1, float outside (0, 1], str other than 'all' are refused",
+              why=f"a bound of the n_modes validation changed (integer < 1 refused: {b_int}; float outside (0, 1] refused: {b_float}; other strings refused: {b_str})")
     for q in ("xeofs.linalg.decomposer.Decomposer", "xeofs.linalg._numpy._svd._SVD"):
         init = M(q, "__init__")
         _called_first(chk, "n_modes.called", init, "sanity_check_n_modes", "the SVD wrapper no longer validates n_modes at construction")
@@ -360,6 +381,10 @@ def _roles(chk):
           "transform data with other dimensions than the fitted data is no longer refused")
     _role(chk, "feature_coords", M(st, "_validate_transform_feature_coords"), lambda g, ff: "coords_are_equal" in norm(g.test) or "equals" in norm(g.test),
           "transform data with other feature coordinates is no longer refused")
+    from .common import holds as _holds
+    _role(chk, "transform_type", M(st, "_validate_transform_data_type"),
+          lambda g, ff: _holds(g.test, g.polarity, "NotEq", lambda e: "type" in norm(e).lower(), lambda e: "data_type" in norm(e)) or _holds(g.test, g.polarity, "NotEq", lambda e: "data_type" in norm(e), lambda e: "type" in norm(e).lower()),
+          "transform data of another container type than the fitted data is no longer refused")
     strf = M(st, "transform")
     _called_first(chk, "transform_dims.called", strf, "_validate_transform_dimensions", "Stacker.transform no longer validates the dimensions",
                   before=lambda fn, ff: [c for c in calls_in(fn) if is_self_attr(c.func, "_stack")])
